@@ -32,7 +32,7 @@ def main():
     if not decks:
         chk.machinery('no deck generated')
         return chk.finish()
-    recs, verdicts, nd, meta = common_univ.run(chk, decks, 'owner', chk.seed, optsets)
+    recs, verdicts, nd, meta = common_univ.run(chk, decks, 'owner', chk.seed, optsets, moved_every=3)
     chk.cov['traces_validated_against_impl'] = len(verdicts)
     chk.cov['evaluations'] = len(verdicts)
     nt = 0
@@ -49,7 +49,7 @@ def main():
                 continue
             err = rec['err']
             sig = {'clause': kind, 'errtype': err['type'] if err else None,
-                   'where': err['where'] if err else None, 'features': '+'.join(feats),
+                   'where': err['where'] if err else None, 'features': '+'.join(feats), 'moved': bool(meta[tid].get('moved')),
                    'opts': ' '.join(sorted(o.replace('--', '') for o in meta[tid]['opts']))}
             chk.violation(sig, {'text': rec['text'], 'opts': meta[tid]['opts'], 'error': err, 'deck': deck,
                                 'clauses': 'owner', 'point2': deck['pts'][k - 1] if k else None})
@@ -71,7 +71,7 @@ def main():
     chk.extra['rule'] = ('distinct = distinct (abstract deck, option set); non-trivial = at least one FILL with a '
                          'non-identity transformation and at least one probe point owned through a filler cell')
     chk.extra['exhaustive'] = False
-    chk.assumptions += ['transformations: signed-permutation rotations with integer displacements (exact arithmetic)',
+    chk.assumptions += ['transformations: signed-permutation rotations with integer displacements (exact arithmetic); every third deck also with the whole world (all frames) moved by a general rigid motion (adeck.moved_world): float TR/TRCL/FILL entries, owner of phi(p) = exact owner of p',
                         'DESIGN.md section 4 convention 4 (TRCL/FILL precedence as documented by the converter and its integration decks)',
                         '110 random half-integer probe points of [-5.5,5.5]^3 per deck']
     return chk.finish()
